@@ -1953,7 +1953,7 @@ att_mnemo_table = {
         'lidt', 'lldt', 'lmsw', 'ltr', 'sgdt', 'sidt', 'sldt', 'smsw', 'str',
         'verr', 'verw', 'invlpg',
         'loop', 'loope', 'loopne',
-        'popfw', 'pushfw', 'popaw', 'pushaw', 'iretw',
+        'popfw', 'pushfw', 'popaw', 'pushaw', 'iretw', 'enter',
         'ftst', 'fxtract', 'fbld', 'fbstp', 'fldenv', 'fnsave', 'fnstenv',
         'frstor', 'fcomi', 'fcomip',
         ] + mnemo_mmx + mnemo_prefetch + mnemo_float_optional_suffix,
@@ -2008,6 +2008,10 @@ att_mnemo_table = {
         },
 }
 
+# AT&T syntax reverses the operands, except for these instructions, for
+# which GNU as keeps the Intel order
+att_same_order = ['bound', 'enter']
+
 def mnemo_from_att_set_size(size, args):
     for a in args:
         if a[x86_afs.ad]:
@@ -2028,6 +2032,8 @@ def att_bug_fsub_fdiv(name, args, asm_format):
         return name
 
 def mnemo_from_att(prefix, name, args, asm_format):
+    if name in att_same_order and len(args) == 2:
+        args.reverse()
     if name == 'lcall' and len(args) == 2:
         # lcall $seg, $off is the two-operand 'call' row (9A)
         return prefix, 'call'
@@ -2136,7 +2142,11 @@ def mnemo_to_att(name, args, asm_format):
                 if not True in has_add:
                     return name
             for suffix, size in att_mnemo_table[table][0].items():
-                if x86_afs.size in args[0]:
+                if len(args) == 2 and \
+                        args[0].get(x86_afs.size) == x86_afs.size_seg:
+                    # mov to a segment register: the source has the size
+                    argsize = args[1][x86_afs.size]
+                elif x86_afs.size in args[0]:
                     argsize = args[0][x86_afs.size]
                 elif x86_afs.imm in args[0]:
                     argsize = 'u%02d'%tab_int_size[type(args[0][x86_afs.imm])]
@@ -2433,7 +2443,8 @@ class x86_mn(x86_mn_base):
         if mnemo == ['rep','ret']:
             mnemo = ['rep;','ret']
         if asm_format.startswith('att_syntax'):
-            args.reverse()
+            if not self.m.name in att_same_order:
+                args.reverse()
             mnemo[-1] = mnemo_to_att(mnemo[-1], self.arg, asm_format)
             if mnemo[-1] == 'call' or mnemo[-1].startswith('j'):
                 if   args[0][0] == '$':
